@@ -91,6 +91,27 @@ func pickSeeds(all []seeds.Seed, nth int) []seeds.Seed {
 	return out
 }
 
+// pickSeedsPlain: every nth certificate seed plus all CRL / OCSP seeds, without the cover (checks whose
+// oracle costs hundreds of lint runs per state).
+func pickSeedsPlain(all []seeds.Seed, nth int) []seeds.Seed {
+	if nth <= 1 {
+		return all
+	}
+	var out []seeds.Seed
+	ci := 0
+	for _, s := range all {
+		if s.Kind != seeds.Cert {
+			out = append(out, s)
+			continue
+		}
+		if ci%nth == 0 {
+			out = append(out, s)
+		}
+		ci++
+	}
+	return out
+}
+
 // coverSeeds marks the seeds of the greedy (lint, status) cover.
 func coverSeeds(all []seeds.Seed) map[int]bool {
 	g := lint.GlobalRegistry()
